@@ -13,7 +13,7 @@ tvars == <<vars, l, pre, op, okk, diffs>>
 LogE(r) == [p \in Provs |-> [c \in Chains |-> [on |-> r.e[p][c].on, stake |-> r.e[p][c].stake,
                                                dt |-> r.e[p][c].dt, frozen |-> r.e[p][c].frozen]]]
 LogM(r) == [p \in Provs |-> [on |-> r.m[p].on, chains |-> r.m[p].chains, total |-> r.m[p].total,
-                             moved |-> FALSE]]
+                             moved |-> r.m[p].moved]]
 LogDg(r) == [q \in PE |-> [w \in Who |-> r.dg[q][w]]]
 LogVd(r) == [w \in Who |-> [v \in Vals |-> r.vd[w][v]]]
 
@@ -31,7 +31,7 @@ TNext == /\ l < Len(Trace) /\ l' = l + 1
 TSpec == TInit /\ [][TNext]_tvars
 
 (* the spec's own prediction of the step, from the previous real state *)
-PW == [e |-> pre.e, m |-> [p \in Provs |-> [pre.m[p] EXCEPT !.moved = FALSE]], dg |-> pre.dg, vd |-> pre.vd]
+PW == [e |-> pre.e, m |-> pre.m, dg |-> pre.dg, vd |-> pre.vd]
 Predict(r) ==
   LET a == r.a IN
   CASE r.ev = "stake" -> StakeW(PW, a.p, a.c, a.amt, a.v)
@@ -60,7 +60,7 @@ MirrorTol == \A w \in Who : Abs(SumSet([q \in PE |-> dg[q][w]], PE) - SumSet([v 
 NonNegative == \A q \in PE, w \in Who : dg[q][w] >= 0
 \* a failed transaction changes nothing (atomicity, as on the real chain)
 FailedTxNoChange == (~okk /\ op \notin {"reset", "slash", "nextday"}) =>
-                      (e = pre.e /\ dg = pre.dg /\ vd = pre.vd /\ \A p \in Provs : m[p] = [pre.m[p] EXCEPT !.moved = FALSE])
+                      (e = pre.e /\ dg = pre.dg /\ vd = pre.vd /\ \A p \in Provs : [m[p] EXCEPT !.moved = FALSE] = [pre.m[p] EXCEPT !.moved = FALSE])
 
 Viol(sig) == PrintT(<<"VIOL", l, sig>>)
 Report ==
